@@ -860,7 +860,13 @@ def tconds(fn, n, keep=()):
         lits = new
         if not changed:
             break
-    return {norm(v) for v in lits}
+    out = set()
+    for v in lits:
+        if isinstance(v, ast.BoolOp) and isinstance(v.op, ast.Or):
+            ds = disjuncts(v)                       # `x or (not x and y)` is `x or y`
+            v = ds[0] if len(ds) == 1 else ast.BoolOp(op=ast.Or(), values=ds)
+        out.add(norm(v))
+    return out
 
 
 def tliterals(fn, n, keep=()):
